@@ -86,6 +86,7 @@ impl vstd::std_specs::cmp::OrdSpecImpl for FringeNode {
         forall|j: int| 0 <= j < r@.len() ==> (#[trigger] r@[j]).0 < distances@.len() && !feq(distances@[r@[j].0 as int], f64_max())
             && r@[j].1.distance == distances@[r@[j].0 as int],
         forall|k: int| 0 <= k < distances@.len() && !feq(distances@[k], f64_max()) ==> exists|j: int| 0 <= j < r@.len() && (#[trigger] r@[j]).0 == k,
+        !with_paths ==> forall|j: int| 0 <= j < r@.len() ==> (#[trigger] r@[j]).1.paths@.len() == 0,
 //@ end
 
 //@ extract fn src/algorithms/shortest_path/dijkstra.rs push_fringe_node props=C04,C20
@@ -242,6 +243,8 @@ if dist[v] != vf64_max() {
             hist.contains(((#[trigger] r.unwrap()@[j]).0, r.unwrap()@[j].1.distance)),
         // [C04.basic.reported_in_range]
         forall|j: int| 0 <= j < r.unwrap()@.len() ==> (#[trigger] r.unwrap()@[j]).0 < graph.n(),
+        // [C08.basic.no_paths_on_fast_path]
+        forall|j: int| 0 <= j < r.unwrap()@.len() ==> (#[trigger] r.unwrap()@[j]).1.paths@.len() == 0,
 //@ before while let Some(fringe_item) = fringe.pop() {
     let ghost mut hist: Seq<(usize, f64)> = Seq::empty();
     proof {
@@ -259,6 +262,8 @@ if dist[v] != vf64_max() {
             // [C04.basic.assignments_form_walks]
             chain_ok(*graph, weighted, source, hist),
             forall|u: int| reported(dist@, u) ==> hist.contains((u as usize, #[trigger] dist@[u])),
+            // [C04.basic.settled_nodes_are_not_reassigned]
+            forall|j: int| 0 <= j < hist.len() ==> (#[trigger] hist[j]).0 < dist@.len() && (feq(hist[j].1, f64_max()) || dist@[hist[j].0 as int] == hist[j].1),
 //@ before dist[v] = d;
         let ghost dist0 = dist@;
 //@ after dist[v] = d;
@@ -290,6 +295,7 @@ for adj in row_it: graph.get_successor_nodes_by_index(&v)
                 forall|it: FringeNode| #[trigger] heap_view(&fringe).count(it) > 0 ==> item_ok(*graph, weighted, source, hist, it),
                 chain_ok(*graph, weighted, source, hist),
                 forall|u: int| reported(dist@, u) ==> hist.contains((u as usize, #[trigger] dist@[u])),
+                forall|j: int| 0 <= j < hist.len() ==> (#[trigger] hist[j]).0 < dist@.len() && (feq(hist[j].1, f64_max()) || dist@[hist[j].0 as int] == hist[j].1),
 //@ before let vu_dist = dist[v] + cost;
             let ghost fringe0 = heap_view(&fringe);
 //@ after let vu_dist = dist[v] + cost;
